@@ -254,6 +254,12 @@ var zzC18Templates = []string{
 	"function f() { -7001; } return 5;",
 	"function f() { [7001, 7002]; } return 6;",
 	"function f() { \"s\"[7001]; } return 7;",
+	// constant arithmetic around sub-expressions the optimizer cannot fold
+	"return 7001 - 7002 + 7003;",
+	"return 7001 + ((7002 - 7003) + 7001);",
+	"function f() { return 7001 - 7002 - 7003; } return f();",
+	"if (7001 - 7002 + 7003 == 2) { return 1; } return 7001 + 7002 + 7003;",
+	"function f(a) { return a + (7001 - (7002 + 7003)); } return f(1) - 7001 + 7002;",
 }
 
 // ZZ_C18_Literals: integer literals symbolic in [0, 70000] at AST level:
